@@ -4,7 +4,7 @@ package ppu
 
 func VerifLcdInit() {
 	l := newVerifLCD()
-	vAssert("inv-init", lcdInv(l.p))
+	vAssert("inv-init", lcdInvStrict(l.p))
 	vAssert("on-at-power-up", l.p.enabled && l.p.ticks == 0 && l.p.mode == 2 && l.p.firstLine)
 	vReach("end")
 }
@@ -21,7 +21,7 @@ func VerifLcdStep() {
 	first := p.firstLine
 	enabled := p.enabled
 	p.EndMachineCycle()
-	vAssert("inv", lcdInv(p))
+	vAssert("inv", lcdInvStrict(p))
 	if enabled {
 		// what the CPU sees during the following cycle
 		vAssert("LY", int(p.ReadLY()) == t/114)
@@ -67,6 +67,39 @@ func VerifLcdSwitch() {
 	} else {
 		vAssert("on-on-unchanged", p.ticks == pre.ticks && p.mode == pre.mode && p.ly == pre.ly && p.firstLine == pre.firstLine)
 	}
+	vReach("end")
+}
+
+// any other PPU register write (including a write to LY) leaves the timing state alone; LY never takes the written value
+func VerifLcdRegWrite() {
+	l := newVerifLCD()
+	p := l.p
+	vHavoc("ppu", p)
+	vHavoc("oam", l.o)
+	vAssume(lcdInv(p))
+	pre := *p
+	v := vU8("v")
+	switch vCfg("reg") {
+	case 0:
+		p.WriteLY(v)
+		vAssert("LY-not-set-to-written-value", p.ReadLY() == pre.ly || p.ReadLY() == 0)
+	case 1:
+		p.WriteSTAT(v)
+		vAssert("ly", p.ly == pre.ly)
+	case 2:
+		p.WriteLYC(v)
+		p.WriteSCX(v)
+		p.WriteSCY(v)
+		p.WriteWX(v)
+		p.WriteWY(v)
+		p.WriteBGP(v)
+		p.WriteOBP0(v)
+		p.WriteOBP1(v)
+		p.WriteVideoRAM(0x8000+(vU16("va")&0x1fff), v)
+		vAssert("ly", p.ly == pre.ly)
+	}
+	vAssert("inv", lcdInv(p))
+	vAssert("timing-untouched", p.ticks == pre.ticks && p.mode == pre.mode && p.firstLine == pre.firstLine && p.enabled == pre.enabled)
 	vReach("end")
 }
 
